@@ -43,7 +43,7 @@ ALL_CMP = sorted(CMP)
 FEW_CMP = ["<", "in", "is not"]
 ASTOR_CLASS = "astor-fallback-unfaithful"
 FINDINGS = ["equal-precedence-right-operand", "singleton-tuple-comma", "subscript-tuple-index", "slice-bound-tuple",
-            ASTOR_CLASS, "nonfinite-float-as-name", "string-annotation-no-parent"]
+            ASTOR_CLASS, "nonfinite-float-as-name", "string-annotation-no-parent", "re-compile-keywords-dropped"]
 
 
 def kids_of(t: Dict[str, Any]) -> List[Dict[str, Any]]:
@@ -128,6 +128,15 @@ class _Norm(ast.NodeTransformer):
     def visit_Set(self, node: ast.Set) -> Any:                 # {a, b}  is shown as  set([a, b])
         self.generic_visit(node)
         return ast.Call(ast.Name("set", ast.Load()), [ast.List(node.elts, ast.Load())], [])
+
+    def visit_Call(self, node: ast.Call) -> Any:               # re.compile(p, flags=f) is shown as re.compile(p, f)
+        self.generic_visit(node)
+        f = node.func
+        if (isinstance(f, ast.Attribute) and f.attr == "compile" and isinstance(f.value, ast.Name) and f.value.id == "re"
+                and len(node.args) == 1 and len(node.keywords) == 1 and node.keywords[0].arg == "flags"):
+            node.args = node.args + [node.keywords[0].value]
+            node.keywords = []
+        return node
 
     def visit_BoolOp(self, node: ast.BoolOp) -> Any:           # a or (b or c) == a or b or c (same evaluation)
         self.generic_visit(node)
@@ -265,7 +274,8 @@ def expr_cfg(mode: str, cmp_used: List[str], open_ids: List[str], fixed_ids: Lis
 
 
 PROBES = {"equal-precedence-right-operand": "a-(b-c)", "singleton-tuple-comma": "(a,)",
-          "subscript-tuple-index": "x[()]", "slice-bound-tuple": "x[(a,):b]", "nonfinite-float-as-name": "1e999"}
+          "subscript-tuple-index": "x[()]", "slice-bound-tuple": "x[(a,):b]", "nonfinite-float-as-name": "1e999",
+          "re-compile-keywords-dropped": "re.compile('s', **o)"}
 LIT_PROBES = {"bytes-single-quote": b"'", "str-nul-dropped": "\0"}
 
 
